@@ -9,5 +9,6 @@ CONSTANTS
   Confs <- ConfsSw
   Stores <- StoresNone
   Ancs <- AncsTs
+  SrcPorts <- SrcPortsEph
   RestoreAtTop = FALSE
 INVARIANTS HistoryIndependence
